@@ -145,10 +145,18 @@ pub fn run(seed: u64, count: usize, shards: usize, outdir: &str) {
             }
         }
         let prob = precompute(&cs, &ps, Some(&rooms));
-        let prepared = problem_data(&prob).6.unwrap();
+        // the prepared room list; None = precompute_problem dropped the list although one was given: then no node is ever checked against
+        // the rooms, i.e. the stage reports "no conflict" for every assignment
+        let prepared = std::panic::catch_unwind(|| problem_data(&prob).6).unwrap_or(None);
         let a2 = a.clone();
         let nd2 = nd.clone();
-        let res = std::panic::catch_unwind(move || room_feasibility(&cs, &a2, &prepared, &nd2));
+        let res = match prepared {
+            Some(prepared) => std::panic::catch_unwind(move || room_feasibility(&cs, &a2, &prepared, &nd2)),
+            None => {
+                *hist.entry(String::from("impl_dropped_room_list")).or_insert(0) += 1;
+                Ok((true, None))
+            }
+        };
         let (g_exp, j_exp) = match &res {
             Err(_) => (String::from("GPanic"), json!("panic")),
             Ok((feasible, sets)) => {
